@@ -1,3 +1,14 @@
-from txtar_common import run
+from txtar_common import run, TXTAR_LEVEL
+
+
 def check(ctx):
     return run(ctx, "C03")
+
+
+REGISTRY = dict(
+    category="model_checking", design_ref="DESIGN.md section 3 C03",
+    text=TXTAR_LEVEL + " Exhaustive inside the bound, sampled beyond it: the right level for a total, pure function whose "
+         "interesting inputs are short marker look-alikes.",
+    note="trusted: TLC, the Txtar.tla reference semantics (cross-checked against golang.org/x/tools/txtar on every CR-free input), "
+         "the Go driver's comparison code; TrimSpace modelled on ASCII only",
+    technique="TLA+ reference semantics model-checked by TLC; TLC-generated cases replayed into txtar.Parse/Format; real traces validated by TLC")
